@@ -298,8 +298,10 @@ def to_case(r, opts='-'):
     end = '-' if not r.end else ('s:' if r.end == 'single' else 'd:') + r.end_blk.hex()
     meta = '-' if r.metadata is None else (ubj(r.metadata) + b'}').hex()
     fs = []
+    slots = r.slots()
     for f in r.frames:
-        chars = ','.join('%d.%d.%s.%s' % (p, fol, hx(pre), hx(post)) for (p, fol, pre, post) in f.chars) or '-'
+        present = {(p, fol): (pre, post) for (p, fol, pre, post) in f.chars}
+        chars = ','.join(('%s.%s' % (hx(present[s][0]), hx(present[s][1]))) if s in present else '-' for s in slots)
         items = ','.join(hx(i) for i in f.items) or '-'
         fs.append('%d/%s/%s/%s/%s' % (f.fid, hx(f.fstart), hx(f.fend), chars, items))
     return [r.start_blk.hex(), gecko, end, meta, ';'.join(fs) or '-', opts]
